@@ -1,12 +1,34 @@
 CONFIG = dict(
         level='proof',
         streams=[dict(harness='c15', driver='c15', shrink_field='ops')],
-        rule='operation sequences on one toposort.Graph (AddNode/AddEdge/RemoveEdge/ReindexNode, then Toposort on a copy x5, FindCycle, '
-             'FindChildren, FindParents): all digraphs on <=3 nodes with self loops and on 4 nodes (quick: without self loops) in two insertion '
-             'orders, random graphs up to 30 nodes with removal+reindex rounds, a DAG-biased stream and a malformed stream (duplicates, unknown '
-             'endpoints, missing reindex). Non-trivial = at least 2 nodes and 1 edge; distinct = distinct operation list.',
+        rule='operation sequences on one toposort.Graph (AddNode/AddEdge/RemoveEdge/ReindexNode, then Toposort on a copy x5 and on 3 graphs '
+             'rebuilt from the same operation sequence, FindCycle, FindChildren, FindParents): all digraphs on <=3 nodes with self loops and on '
+             '4 nodes (quick: without self loops) in two insertion orders, random graphs up to 30 nodes with removal+reindex rounds, a '
+             'DAG-biased stream and a malformed stream (duplicates, unknown endpoints, missing reindex). Non-trivial = at least 2 nodes and '
+             '1 edge; distinct = distinct operation list.',
         exhaustive_note='digraphs on <=3 nodes (with self loops) x 2 insertion orders enumerated completely; 4 nodes without self loops (quick) / with (thorough)',
-        assumptions=['node names are fixed-width so that Go string order equals numeric order of the model',
-                     'FindCycle/FindParents/BreadthSort iterate Go maps: the model fixes one order; only order-independent facts are compared (validity of the returned cycle, emptiness, parent set)'],
-        trusted_base=['hand-written Gallina model coq/theories/Toposort/Model.v of internal/toposort/toposort.go, tied to the code by the replay of every harness case'],
+        assumptions=['node names are fixed-width so that Go string order equals numeric order of the model (sort.Strings is modelled as a sort of integers)',
+                     'the empty string is not used as a node name (it is FindCycle\'s sentinel; hypothesis is_node s nobody = false of the FindCycle '
+                     'theorems, part of valid_ops, proved to hold in every reachable state)',
+                     'FindCycle/FindParents iterate Go maps: the model takes the iteration order as an argument; the theorems hold for every order, '
+                     'and only order-independent facts are compared (validity of the returned cycle, emptiness, parent set)',
+                     'independence of Toposort from Go map iteration order is not proved about the Go code (the model has no map order); it is what '
+                     'the correspondence check tests: every Sort is run on 5 copies and on 3 graphs rebuilt from the same operations and all must '
+                     'give the model\'s single answer'],
+        trusted_base=['hand-written Gallina model coq/theories/Toposort/Model.v of internal/toposort/toposort.go, tied to the code by the replay '
+                      'of every harness case (zero mismatches on all generated cases incl. exhaustive small scopes and malformed sequences)'],
+        level_text='Coq proof, over ALL states reached by valid operation sequences (induction over the operation list) of the executable model '
+                   'that the harness replays against the Go code: Toposort never panics, returns success iff the graph is acyclic, and on success a '
+                   'permutation of the nodes with every edge forward (refinement to an abstract Kahn algorithm, fuel bound proved); FindCycle, for '
+                   'every map iteration order, returns a real cycle through the seed and returns one whenever one exists; removal followed by '
+                   'ReindexNode restores the domain (two-level invariant). All 19 theorems closed under the global context (no axioms).',
+        level_note='Trusted: the correspondence between Model.v and toposort.go (tested, not proved: 15 752 cases per quick run, all digraphs on <=3 '
+                   'nodes / 4 nodes, random graphs to 30 nodes, malformed sequences; fine comparison of every return value and of the exact order), '
+                   'Coq kernel, extraction, OCaml driver, Go harness. Modelled rather than verified: Go strings as integers (fixed-width names), '
+                   'Go maps as association lists, map iteration as an explicit order argument (theorems quantify over it for FindCycle; Toposort, '
+                   'AddEdge, ReindexNode are order-independent by construction in the model and their independence in Go is covered by repeated '
+                   'runs only). BreadthSort, Serialize and DebugDump are not modelled (not part of the property).',
+        technique='machine-checked proof in Coq 8.16 (refinement of the state-machine model to an abstract Kahn model; BFS invariants; invariant '
+                  'over operation sequences) + model/implementation correspondence replay through the extracted OCaml model with an extracted '
+                  'property oracle (cycle_ok, wfb) + exhaustive small-scope enumeration',
     )
